@@ -57,8 +57,8 @@ func c18exec(idx int, statePrefix, reqPrefix string) c18run {
 		r.ok, _, m = h.callUser(idx, c)
 		verifrt.PopPrefix()
 		r.nonce = m.Nonce
-		if statePrefix == "" && (idx == hReceiveMessage || idx == hReplaceMessage || idx == hReplaceDepositForBurn) {
-			verifrt.ProbeAttestation("m_message", "m_attestation", "att", m.Message, m.Attestation, h.Att, 1)
+		if idx == hReceiveMessage || idx == hReplaceMessage || idx == hReplaceDepositForBurn {
+			verifrt.ProbeAttestation(reqPrefix+"m_message", reqPrefix+"m_attestation", statePrefix+"att", m.Message, m.Attestation, h.Att, 1)
 		}
 	}
 	return r
